@@ -198,7 +198,13 @@ class PenalizedSystem2D:
         return self.direct_solve(lhs, rhs)
 
     def direct_solve(self, lhs, rhs):
-        return spsolve(lhs, rhs)
+        output = spsolve(lhs, rhs)
+        if not np.isfinite(output.dot(output)):
+            # spsolve returns NaN values rather than raising an error for a singular system
+            raise np.linalg.LinAlgError(
+                'non-finite value encountered when solving the penalized system'
+            )
+        return output
 
     def add_diagonal(self, value):
         """
